@@ -171,38 +171,116 @@ def rule_r2(ctx, rule="R2.into_msg"):
             ctx.violation(rule, [rel, "catch-all"], f"{rel}:{wild['ln']}", "no catch-all arm (enum is exhaustive)", "catch-all present", "")
         if not _yields_err(wild["body"]):
             ctx.violation(rule, [rel, "catch-all-ok"], f"{rel}:{wild['ln']}", "catch-all yields Err", "yields a value", "")
-    # the SubMsg literal
-    lits = [n for n in A.find_all(f["body"], lambda n: isinstance(n, dict) and n.get("x") and n.get("k") == "struct" and n["path"]["segs"][-1]["id"] == "SubMsg")]
+    # the resulting SubMsg, on every return path: struct literal, `SubMsg::new(m)` (+ field assignments), or a match over such
     ctx.inst(rule + ".submsg")
-    if len(lits) != 1:
-        ctx.unrecognised(rule, [rel, "submsg-literal"], f"{rel}:{f['ln']}", f"{len(lits)} SubMsg literals")
-        return
-    lit = lits[0]
-    msg_binding = None
-    for s in f["body"]["stmts"]:
-        if s["k"] == "let" and s["init"] is not None and A.strip_expr(s["init"]) is mt and s["pat"]["k"] == "ident":
-            msg_binding = s["pat"]["name"]
     fields = [fl["name"] for fl in submsg["fields"]]
-    got = {fl["member"]: fl["expr"] for fl in lit["fields"]}
-    if lit.get("rest") is not None:
-        base = self_field(lit["rest"]) is None and A.path_ids(A.strip_expr(lit["rest"])) == ["self"]
-        if not base:
-            ctx.violation(rule, [rel, "submsg", "rest"], f"{rel}:{lit['ln']}", "..self or explicit fields", "other base")
-    for fn_ in fields:
-        e = got.get(fn_)
-        if e is None:
-            if lit.get("rest") is None:
-                ctx.violation(rule, [rel, "submsg", fn_, "unset"], f"{rel}:{lit['ln']}", f"{fn_} <- self.{fn_}", "field not set", "every sub-message field survives the conversion")
-            continue
-        if fn_ == "msg":
-            ids = A.path_ids(A.strip_expr(e))
-            if ids != [msg_binding]:
-                ctx.violation(rule, [rel, "submsg", "msg"], f"{rel}:{lit['ln']}", "msg <- the converted message", ids)
-        elif self_field(e) != fn_:
-            ctx.violation(rule, [rel, "submsg", fn_], f"{rel}:{lit['ln']}", f"{fn_} <- self.{fn_}", self_field(e) or A.strip_expr(e)["k"],
-                          "id / payload / gas_limit / reply_on of a bridged sub-message are preserved")
+    msg_binding = None
+    for s_ in f["body"]["stmts"]:
+        if s_["k"] == "let" and s_["init"] is not None and A.strip_expr(s_["init"]) is mt and s_["pat"]["k"] == "ident":
+            msg_binding = s_["pat"]["name"]
+    try:
+        results = submsg_results(f, msg_binding)
+    except CheckError as e:
+        ctx.unrecognised(rule, [rel, "submsg-result"], f"{rel}:{f['ln']}", str(e))
+        results = []
+    if not results:
+        ctx.unrecognised(rule, [rel, "submsg-result"], f"{rel}:{f['ln']}", "no SubMsg result found on the success path")
+    for label, res, ln_ in results:
+        for fn_ in fields:
+            got = res.get(fn_, ("unset",))
+            want = ("converted-msg",) if fn_ == "msg" else ("self", fn_)
+            if got != want:
+                ctx.violation(rule, [rel, "submsg", fn_, label], f"{rel}:{ln_}", f"{fn_} <- {'the converted message' if fn_ == 'msg' else 'self.' + fn_} on every path", f"{got} (path: {label})",
+                              "id / payload / gas_limit / reply_on / msg of a bridged sub-message are preserved")
     ctx.extra["CosmosMsg_variants_parsed"] = [(v["name"], cfg_feature(v["attrs"])) for v in cosmos["variants"]]
     ctx.extra["SubMsg_fields_parsed"] = fields
+
+
+SUBMSG_NEW_DEFAULTS = {"id": ("default",), "payload": ("default",), "gas_limit": ("none",), "reply_on": ("const", "ReplyOn::Never")}
+
+
+def submsg_results(f, msg_binding):
+    """[(label, {field: provenance}, line)] for every expression the function returns inside Ok(..)"""
+    env = {}
+    if msg_binding:
+        env[msg_binding] = ("converted-msg",)
+    stmts, tail = A.block_parts(f["body"])
+    objs = {}      # local name -> field map (mutable builder style)
+    for s_ in stmts:
+        if s_["k"] == "let" and s_["init"] is not None and s_["pat"]["k"] == "ident":
+            init = A.strip_expr(s_["init"])
+            r = _submsg_expr(init, env)
+            if r is not None and len(r) == 1:
+                objs[s_["pat"]["name"]] = dict(r[0][1])
+            elif s_["pat"]["name"] != msg_binding:
+                env[s_["pat"]["name"]] = fprov(init, env)
+            continue
+        if s_["k"] == "expr":
+            e = A.strip_expr(s_["expr"])
+            if e["k"] == "assign":
+                l = A.strip_expr(e["left"])
+                if l["k"] == "field" and A.path_ids(l["base"]) and A.path_ids(l["base"])[0] in objs:
+                    objs[A.path_ids(l["base"])[0]][l["member"]] = fprov(e["right"], env)
+                    continue
+        raise CheckError(f"unrecognised statement in into_msg (line {s_['ln']})")
+    t = A.strip_expr(tail) if tail else None
+    if not (t and t["k"] == "call" and A.last_seg(t["func"]) == "Ok" and len(t["args"]) == 1):
+        raise CheckError("into_msg does not end with Ok(..)")
+    inner = A.strip_expr(t["args"][0])
+    ids = A.path_ids(inner)
+    if ids and len(ids) == 1 and ids[0] in objs:
+        return [("builder", objs[ids[0]], inner["ln"])]
+    r = _submsg_expr(inner, env)
+    if r is None:
+        raise CheckError("into_msg: result expression not recognised")
+    return r
+
+
+def _submsg_expr(e, env):
+    e = A.strip_expr(e)
+    if e["k"] == "struct" and e["path"]["segs"][-1]["id"] == "SubMsg":
+        res = {}
+        for fl in e["fields"]:
+            res[fl["member"]] = fprov(fl["expr"], env)
+        if e.get("rest") is not None:
+            base = fprov(e["rest"], env)
+            if base == ("self",):
+                res = _RestSelf(res)
+        return [("literal", res, e["ln"])]
+    if e["k"] == "call" and A.path_ids(e["func"]) and A.path_ids(e["func"])[-2:] == ["SubMsg", "new"] and len(e["args"]) == 1:
+        res = dict(SUBMSG_NEW_DEFAULTS)
+        res["msg"] = fprov(e["args"][0], env)
+        return [("SubMsg::new", res, e["ln"])]
+    if e["k"] == "match":
+        out = []
+        for arm in e["arms"]:
+            env2 = dict(env)
+            p = arm["pat"]
+            if p["k"] == "ident":
+                env2[p["name"]] = fprov(e["expr"], env)
+            r = _submsg_expr(arm["body"], env2)
+            if r is None:
+                return None
+            for label, res, ln_ in r:
+                out.append((f"match arm `{_pat_s(p)}` -> {label}", res, ln_))
+        return out
+    return None
+
+
+class _RestSelf(dict):
+    """field map of a literal with `..self`: unset fields come from self"""
+    def get(self, k, default=None):
+        if k in self:
+            return dict.get(self, k)
+        return ("self", k)
+
+
+def _pat_s(p):
+    if p["k"] == "path":
+        return "::".join(s["id"] for s in p["path"]["segs"][-2:])
+    if p["k"] == "ident":
+        return p["name"]
+    return p["k"]
 
 
 def _yields_err(e):
